@@ -422,7 +422,7 @@ M("r22-derived-sit-context-zero", ["C01", "C09"], "break",
   "add_derived_nonstart_sits/sit_create")
 M("r22-derived-sit-context-inline-benign", ["C01", "C09"], "benign",
   [("yaep.c", "    set_add_new_nonstart_sit (sit_create (rule, i + 1, context), parent);", "    set_add_new_nonstart_sit (sit_create (sit->rule, i + 1, sit->context), parent);")])
-M("r22-error-lookahead-of-old-situation", ["C01", "C09", "C06"], "break",
+M("r22-error-lookahead-of-old-situation", ["C01", "C09", "C06", "C07"], "break",
   [("yaep.c", "	  && !term_set_test (new_sit->lookahead, grammar->term_error_num))\n	continue;\n#ifndef ABSOLUTE_DISTANCES\n      dist = 0;\n#else\n      dist = pl_curr;",
     "	  && !term_set_test (sit->lookahead, grammar->term_error_num))\n	continue;\n#ifndef ABSOLUTE_DISTANCES\n      dist = 0;\n#else\n      dist = pl_curr;")],
   "build_new_set/error-lookahead")
@@ -449,7 +449,7 @@ M("r1c-caller-anode-reset-at-the-end", ["C14", "C17", "C13"], "break",
 M("r23-hash-size-before-alloc", ["C17", "C19", "C16"], "break",
   [("hashtab.c", "  new_htab =\n    create_hash_table (htab->alloc, htab->number_of_elements * 2,", "  htab->searches++;\n  new_htab =\n    create_hash_table (htab->alloc, htab->number_of_elements * 2,")],
   "expand_hash_table/searches")
-M("r16-revert-F32-conditional-total-loss-rule", ["C12", "C06"], "break",
+M("r16-revert-F32-conditional-total-loss-rule", ["C12", "C06", "C07"], "break",
   [("yaep.c", "  rule = rule_new_start (grammar->axiom, NULL, 0);\n  rule_new_symb_add (grammar->term_error);\n  rule_new_symb_add (grammar->end_marker);\n  rule_new_stop ();\n  rule->trans_len = 0;\n  check_grammar (strict_p);",
     "  for (rule = start->u.nonterm.rules; rule != NULL; rule = rule->lhs_next)\n    if (rule->rhs[0] == grammar->term_error)\n      break;\n  if (rule == NULL)\n    {\n  rule = rule_new_start (grammar->axiom, NULL, 0);\n  rule_new_symb_add (grammar->term_error);\n  rule_new_symb_add (grammar->end_marker);\n  rule_new_stop ();\n  rule->trans_len = 0;\n    }\n  check_grammar (strict_p);")],
   "yaep_read_grammar/total-loss-rule")
@@ -506,23 +506,23 @@ M("r25-c-table-released-unconditionally", ["C14"], "break",
 M("c03-revert-F33-shared-alt-lists", ["C04", "C03"], "break",
   [("yaep.c", "      child = (i == disp ? NULL : anode->val.anode.children[i]);\n      child_place = &node->val.anode.children[i];", "      child = NULL;\n      child_place = &node->val.anode.children[i];\n      if (i != disp)\n	*child_place = anode->val.anode.children[i];\n      else")],
   "copy_anode/node-store")
-M("t3-revert-F34-skip-cost-as-backward-distance", ["C06", "C12"], "break",
+M("t3-revert-F34-skip-cost-as-backward-distance", ["C06", "C12", "C07"], "break",
   [("yaep.c", "	      push_recovery_state (state.last_original_pl_el, cost + 1,\n				   state.back_toks);", "	      push_recovery_state (state.last_original_pl_el, cost + 1,\n				   cost + 1);")],
   "error_recovery/first-ignored")
-M("r16-error-shift-without-token-number", ["C12"], "break",
+M("r16-error-shift-without-token-number", ["C12", "C07"], "break",
   [("yaep.c", "      pl[++pl_curr] = new_set;\n      pl_tok_nums[pl_curr] = -1;\n", "      pl[++pl_curr] = new_set;\n")], "error_recovery/pl-store")
-M("r16-restored-tail-without-token-numbers", ["C12"], "break",
+M("r16-restored-tail-without-token-numbers", ["C12", "C07"], "break",
   [("yaep.c", "      pl[++pl_curr] = state->pl_tail[i];\n      pl_tok_nums[pl_curr] = state->pl_tail_tok_nums[i];\n", "      pl[++pl_curr] = state->pl_tail[i];\n")], "set_recovery_state/pl-store")
-M("r16-revert-F27-token-from-set-number", ["C12"], "break",
+M("r16-revert-F27-token-from-set-number", ["C12", "C07"], "break",
   [("yaep.c", "	  tok_num = pl_tok_nums[pl_ind];\n	  pl_ind--;		/* l */", "	  pl_ind--;		/* l */\n	  tok_num = pl_ind;")], "[set-number]")
 M("r13-walk-from-unpruned-root", ["C13", "C04"], "break",
   [("yaep.c", "  root = prune_to_minimal (root, &cost);\n  traverse_pruned_translation (root);", "  {\n    struct yaep_tree_node *pruned = prune_to_minimal (root, &cost);\n    traverse_pruned_translation (root);\n    root = pruned;\n  }")],
   "find_minimal_translation/walk-from-pruned-root")
-M("r16-back-cost-counts-error-sets", ["C06", "C12"], "break",
+M("r16-back-cost-counts-error-sets", ["C06", "C12", "C07"], "break",
   [("yaep.c", "    else if (pl[curr_pl]->core->term != grammar->term_error)\n      (*cost)++;", "    else\n      (*cost)++;")], "find_error_pl_set/error-sets-not-counted")
-M("r16-back-cost-closed-form", ["C06", "C12"], "break",
+M("r16-back-cost-closed-form", ["C06", "C12", "C07"], "break",
   [("yaep.c", "    else if (pl[curr_pl]->core->term != grammar->term_error)\n      (*cost)++;\n  assert (curr_pl >= 0);", "    else\n      ;\n  assert (curr_pl >= 0);\n  *cost = start_pl_set - curr_pl;")], "find_error_pl_set/error-sets-not-counted")
-M("r16-back-cost-local-counter-benign", ["C06", "C12"], "benign",
+M("r16-back-cost-local-counter-benign", ["C06", "C12", "C07"], "benign",
   [("yaep.c", "    else if (pl[curr_pl]->core->term != grammar->term_error)\n      (*cost)++;", "    else\n      *cost += (pl[curr_pl]->core->term != grammar->term_error);")])
 M("c03-parent-disp-crossed", ["C02", "C03"], "break",
   [("yaep.c", "		  state->parent_disp = anode == NULL ? parent_disp : disp;", "		  state->parent_disp = disp;")], "make_parse/state-pushed")
@@ -684,7 +684,7 @@ M("r24-reserve-empty-through-probe-position", ["C19", "C16"], "break",
 M("r24-first-length-updated-on-replacement", ["C19", "C16"], "break",
   [("objstack.c", "      previous_segment = os->os_current_segment->os_previous_segment;\n      yaep_free (os->os_alloc, os->os_current_segment);", "      previous_segment = os->os_current_segment->os_previous_segment;\n      os->initial_segment_length = segment_length;\n      yaep_free (os->os_alloc, os->os_current_segment);")],
   "_OS_expand_memory/initial_segment_length")
-M("r16-saved-token-numbers-shifted", ["C12"], "break",
+M("r16-saved-token-numbers-shifted", ["C12", "C07"], "break",
   [("yaep.c", "\t\t     &pl_tok_nums[last_original_pl_el + 1],", "\t\t     &pl_tok_nums[last_original_pl_el],")], "token-numbers-of-the-saved-sets")
 M("r27-set-stored-unreserved", ["C18"], "break",
   [("yaep.c", "  entry = find_hash_table_entry (set_tab, new_set, TRUE);", "  entry = find_hash_table_entry (set_tab, new_set, FALSE);")], "set_insert/set_tab")
@@ -695,11 +695,11 @@ M("r14-cxx-slot-address-before-reserve", ["C16"], "break",
     "  vlo_t **vlo_ptr;\n\n  vlo_ptr = &((vlo_t **) vlo_array->begin ())[vlo_array_len];\n  if ((unsigned) vlo_array_len >= vlo_array->length () / sizeof (vlo_t *))\n    {\n      vlo_array->expand (sizeof (vlo_t *));\n      vlo_array->shorten (sizeof (vlo_t *));")],
   "vlo_array_expand/")
 
-M("r16-back-frontier-keeps-temporary-token", ["C06", "C12"], "break",
+M("r16-back-frontier-keeps-temporary-token", ["C06", "C12", "C07"], "break",
   [("yaep.c", "\t      set_original_set_bound (state.last_original_pl_el);\n\t      tok_curr = saved_tok_curr;", "\t      set_original_set_bound (state.last_original_pl_el);")], "back-frontier-restores-tok_curr")
-M("r16-head-frontier-stops-before-end-marker", ["C06", "C12"], "break",
+M("r16-head-frontier-stops-before-end-marker", ["C06", "C12", "C07"], "break",
   [("yaep.c", "\t  tok_curr++;\n\t  if (tok_curr < toks_len)", "\t  tok_curr++;\n\t  if (tok_curr < toks_len - 1)")], "head-frontier-up-to-end-marker")
-M("r16-head-frontier-le-form-benign", ["C06", "C12"], "benign",
+M("r16-head-frontier-le-form-benign", ["C06", "C12", "C07"], "benign",
   [("yaep.c", "\t  tok_curr++;\n\t  if (tok_curr < toks_len)", "\t  tok_curr++;\n\t  if (tok_curr <= toks_len - 1)")])
 
 # ---- R8 / R2f (C16, C19) ----------------------------------------------------------------------------
@@ -750,13 +750,13 @@ M("r6-benign-more-printing", ["C09"], "benign",
   [("yaep.c", "  if (grammar->debug_level > 2)\n    fprintf (stderr, \"\\n++Error recovery start\\n\");", "  if (grammar->debug_level > 2)\n    {\n      fprintf (stderr, \"\\n++Error recovery start\\n\");\n      fprintf (stderr, \"tokens: %d\\n\", toks_len);\n    }")])
 
 # ---- T1 / T3 / R6-flags (C01, C02, C06) -------------------------------------------------------------------
-M("t3-wrong-attr-index", ["C06"], "break",
+M("t3-wrong-attr-index", ["C06", "C07"], "break",
   [("yaep.c", "			    start, toks[start].attr, stop,\n			    toks[stop].attr);", "			    start, toks[start].attr, stop,\n			    toks[start].attr);")], "syntax_error#")
-M("t3-error-token-attr-of-next", ["C06"], "break",
+M("t3-error-token-attr-of-next", ["C06", "C07"], "break",
   [("yaep.c", "	      syntax_error (saved_tok_curr, toks[saved_tok_curr].attr,\n			    -1, NULL, -1, NULL);", "	      syntax_error (saved_tok_curr, toks[tok_curr + 1].attr,\n			    -1, NULL, -1, NULL);")], "syntax_error#")
-M("t3-recovery-off-continues", ["C06", "C01"], "break",
+M("t3-recovery-off-continues", ["C06", "C01", "C07"], "break",
   [("yaep.c", "			    -1, NULL, -1, NULL);\n	      break;", "			    -1, NULL, -1, NULL);\n	      continue;")], "syntax_error#")
-M("t3-recovery-flag-inverted", ["C06", "C01"], "break",
+M("t3-recovery-flag-inverted", ["C06", "C01", "C07"], "break",
   [("yaep.c", "	      if (grammar->error_recovery_p)\n	    {\n	      error_recovery (&start, &stop);", "	      if (!grammar->error_recovery_p)\n	    {\n	      error_recovery (&start, &stop);")], "recovery-switch")
 M("t1-term-attr-previous-token", ["C02", "C06", "C13"], "break",
   [("yaep.c", "		  node->val.term.attr = toks[tok_num].attr;", "		  node->val.term.attr = toks[tok_curr].attr;")], "term.attr")
